@@ -1080,7 +1080,26 @@ func doVarInput(req *Req) (resp Resp) {
 	defer func() { parseBudget, evalBudget = 0, 0 }()
 	m, err := exec.ExecVarInputText(req.Text)
 	if err != nil {
-		return Resp{Kind: "error", Err: errInfoLight(err)}
+		resp = Resp{Kind: "error", Err: errInfoLight(err)}
+		func() {
+			defer func() {
+				if p := recover(); p != nil {
+					resp.Err.DisplayPanic = fmt.Sprintf("%v", p)
+				}
+			}()
+			resp.Err.Text = exec.DisplayError(err)
+		}()
+		// what the compiler alone says about the same text (C05: the syntax error of an
+		// input-variable text carries a code and a position like that of a program)
+		if runes, rerr := zio.NewByteStream([]byte(req.Text)).ReadAll(); rerr == nil {
+			parser := syntax.NewParser(runes, zh.NewParserZH())
+			if _, perr := parser.Parse(); perr != nil {
+				if se, ok := perr.(*zerr.SyntaxError); ok {
+					resp.Batch = []Resp{{Kind: "error", NLines: len(parser.Lines), Ints: []int{parser.FindLineIdx(se.Cursor, 0)}, Err: &ErrInfo{Class: "syntax", Code: se.Code, Cursor: se.Cursor, HasCursor: true, Msg: se.Message}}}
+				}
+			}
+		}
+		return resp
 	}
 	if m == nil {
 		return Resp{Kind: "nilnil"}
